@@ -605,6 +605,55 @@ class AEval(dtable.Eval):
                 if list(news) != list(cur[1]):
                     self._place_store(pl, L(*news), env)
                 return L(*outs) if e["method"] == "map" else UNIT
+        if k == "MethodCall" and e["method"] in ("find", "find_map", "position", "any", "all", "nth", "skip_while_next") and e["method"] not in self.builtins \
+                and is_node(e["receiver"]):
+            # a short-circuiting adaptor on `it.by_ref()` / `(&mut it)`: the iterator variable loses what was looked at
+            rc = e["receiver"]
+            var = None
+            if rc["k"] == "MethodCall" and rc["method"] == "by_ref" and not rc["args"] and is_node(rc["receiver"]) and rc["receiver"]["k"] == "Path":
+                var = rc["receiver"]["path"]
+            elif rc["k"] in ("Ref", "Paren"):
+                r2 = rc
+                while is_node(r2) and r2["k"] in ("Ref", "Paren"):
+                    r2 = r2["expr"]
+                if is_node(r2) and r2["k"] == "Path" and rc["k"] == "Ref" and rc.get("mut"):
+                    var = r2["path"]
+            if var is not None and var in env and env[var][0] == "list" and not isinstance(env[var], MutRef):
+                xs = list(env[var][1])
+                args = [self.ex(a, env) for a in e["args"]]
+                m = e["method"]
+                res = None
+                used = len(xs)
+                if m == "nth" and args and args[0][0] == "int":
+                    used = min(len(xs), args[0][1] + 1)
+                    res = C("Some", xs[args[0][1]]) if args[0][1] < len(xs) else C("None")
+                else:
+                    res = {"find": C("None"), "find_map": C("None"), "position": C("None"), "any": B(False), "all": B(True)}[m]
+                    for i_, x in enumerate(xs):
+                        v_ = self.apply(args[0], [x])
+                        if m == "find" and self._b(v_):
+                            res, used = C("Some", x), i_ + 1
+                            break
+                        if m == "find_map" and v_[0] == "ctor" and v_[1] == "Some":
+                            res, used = v_, i_ + 1
+                            break
+                        if m == "position" and self._b(v_):
+                            res, used = C("Some", I(i_)), i_ + 1
+                            break
+                        if m == "any" and self._b(v_):
+                            res, used = B(True), i_ + 1
+                            break
+                        if m == "all" and not self._b(v_):
+                            res, used = B(False), i_ + 1
+                            break
+                env[var] = ("list", tuple(xs[used:]))
+                self._note_assigned(var)
+                return res
+        if k == "MethodCall" and is_node(e["receiver"]) and e["receiver"]["k"] == "MethodCall" and e["receiver"]["method"] == "by_ref" and not e["receiver"]["args"] \
+                and is_node(e["receiver"]["receiver"]) and e["receiver"]["receiver"]["k"] == "Path" and e["receiver"]["receiver"]["path"] in env \
+                and env[e["receiver"]["receiver"]["path"]][0] == "list" and e["method"] not in ("next", "peekable", "by_ref") and e["method"] not in self.builtins:
+            # any other adaptor on a borrowed iterator consumes part of it in a way that is not modelled: undecided, never guessed
+            raise Unknown("adaptor `%s` on a borrowed iterator (`%s.by_ref()`)" % (e["method"], e["receiver"]["receiver"]["path"]))
         if k == "MethodCall":
             return self.method(e, env)
         if k == "Index" and is_node(e["index"]) and e["index"]["k"] == "Range":
